@@ -294,7 +294,17 @@ class NBGen:
     def new_id(self):
         r = self.rng
         while True:
-            i = "%08x" % r.getrandbits(32) if r.random() < 0.8 else r.choice(["cell-", "a_b-", "X"]) + str(r.randrange(10 ** 4))
+            c = r.random()
+            if c < 0.7:
+                i = "%08x" % r.getrandbits(32)                      # nbformat's helper
+            elif c < 0.8:
+                i = "%08x-%04x-%04x-%04x-%012x" % (r.getrandbits(32), r.getrandbits(16), r.getrandbits(16), r.getrandbits(16), r.getrandbits(48))   # JupyterLab uuid
+            elif c < 0.87:
+                i = "%064x" % r.getrandbits(256)                    # the schema's maximum length (content hash)
+            elif c < 0.9:
+                i = r.choice("abcXYZ019_-") + r.choice(["", "q"])   # its minimum
+            else:
+                i = r.choice(["cell-", "a_b-", "X"]) + str(r.randrange(10 ** 4))
             if i not in self._ids:
                 self._ids.add(i)
                 return i
